@@ -53,7 +53,7 @@ Definition ignored_name (name : string) : bool :=
 
 (** C03. bit 16: a report whose secondary label is not the innermost visible same-name declaration;
     bit 32: a declaration re-using a visible name that is not reported. *)
-Definition c03_zone (os : list occ) (ds : list declinfo) (reported : list (range * range)) : N * N :=
+Definition c03_zone_with (ignored : string -> bool) (os : list occ) (ds : list declinfo) (reported : list (range * range)) : N * N :=
   let sound :=
     fold_left (fun acc rp =>
       let '(dr, sr) := rp in
@@ -79,12 +79,14 @@ Definition c03_zone (os : list occ) (ds : list declinfo) (reported : list (range
     | Some _, DSelf => acc
     | Some _, _ =>
         let name := t_name (d_tok d) in
-        if ignored_name name || str_eqb name "..." then acc
+        if ignored name || str_eqb name "..." then acc
         else if existsb (fun rp => range_eq (fst rp) (t_range (d_tok d))) reported then acc
         else if negb (d_flags d =? 0) then (fst acc, N.lor (snd acc) (d_flags d))
         else (N.lor (fst acc) 32, snd acc)
     | None, _ => acc
     end) ds sound.
+
+Definition c03_zone := c03_zone_with ignored_name.
 
 (** C02. bit 64: a variable with an (unaffected) use is flagged; bit 128: a variable never mentioned
     again is not flagged. [captured r] tells whether the implementation resolved any reference to r. *)
